@@ -401,11 +401,16 @@ func runCfg(c *kit.Ctx, r *rand.Rand, cfg qcfg, nUniform int) {
 		}
 		t, sv := model.C04Frac(h)
 		jd := o.judge(j, t, sv)
+		if o.perturbed {
+			c.Count("judged_with_p_plus_minus_2^-52_tables", 1)
+		}
 		if jd.exact {
 			c.Count("exact_quantile", 1)
 		} else {
 			c.Count("inexact_inside_band", 1)
-			if jd.betaDom {
+			if o.perturbed {
+				c.Count("inexact_inside_band_tiny_p", 1)
+			} else if jd.betaDom {
 				c.Max("max_inband_error_ppm_of_tolerance_beta_dominated", int64(jd.bandPPM))
 				c.Max(fmt.Sprintf("max_inband_beta_ppm_stake_1e%d", bucket10(float64(n))), int64(jd.bandPPM))
 			} else {
